@@ -51,8 +51,12 @@ def cases(draw, thorough=False):
              "n_req": draw(st.integers(1, 4)), "init_batch": draw(st.integers(1, n)), "count": draw(st.integers(5, 60)),
              "size": draw(st.integers(1, n))}
         hist.append(c)
-    if draw(st.integers(0, 4)) == 0 and len(hist) >= 1:
+    if draw(st.integers(0, 3)) == 0 and len(hist) >= 1:
         hist.append(dict(hist[-1]))  # the same call twice in a row
+    if draw(st.integers(0, 3)) == 0:
+        e = draw(st.sampled_from(["prior_sample", "rej_count"]))
+        first = dict(hist[0], entry=e)
+        hist.extend([first, dict(first)])  # two successive draws of prior samples from one generator
     return {"spec": spec, "history": hist, "seed": draw(st.integers(0, 2**32 - 1)),
             "alt_seed": draw(st.integers(1, 2**31 - 1)), "multipool": draw(st.integers(0, 9)) == 0}
 
@@ -158,6 +162,17 @@ def body_factory(ctx):
                     multi_batch = True
             else:
                 drawsets.append(None)
+        # prior samples drawn by successive calls from one generator must come from different parts of its stream:
+        # a period value repeated between two such calls has probability 0
+        fresh = [(k, set(np.asarray(a["P"].value).tolist())) for k, (c, a) in enumerate(zip(case["history"], A))
+                 if c["entry"] in ("prior_sample", "rej_count")]
+        for x in range(len(fresh)):
+            for y in range(x + 1, len(fresh)):
+                e1, e2 = case["history"][fresh[x][0]]["entry"], case["history"][fresh[y][0]]["entry"]
+                if e1 == e2 and (fresh[x][1] & fresh[y][1]):
+                    raise Violation("calls %d and %d (%s) drew identical prior samples from the same generator "
+                                    "(successive calls must receive different random streams)" % (fresh[x][0], fresh[y][0], e1),
+                                    common=sorted(fresh[x][1] & fresh[y][1])[:5])
         for i in range(len(drawsets)):
             for j in range(i + 1, len(drawsets)):
                 if drawsets[i] and drawsets[j] and (drawsets[i] & drawsets[j]):
